@@ -38,6 +38,9 @@ def phased_case(rng, seq, nops):
 DOC_A = '{"a":[1,2,{"b":null}],"s":"some text that is long enough to make the print buffer of the formatted printer grow at least once: ' + 'x' * 200 + '","n":1.5}'
 DOC_B = '{"a":[1,3],"s":"other","z":true,"big":' + '1' * 70 + ',"bad":[' + '9' * 64 + '.5e3]}'
 
+PATCH_C = ('[{"op":"copy","from":"/a","path":"/c"},{"op":"move","from":"/c","path":"/d"},{"op":"add","path":"/e","value":{"k":[1,"two",{"three":3}]}},'
+           '{"op":"replace","path":"/s","value":["replaced",{"x":"y"}]},{"op":"test","path":"/d","value":[1,3]},{"op":"copy","from":"/e","path":"/a/-"},{"op":"remove","path":"/z"}]')
+
 def external_script(cfgs, fail=None):
     ops = ['hooks:' + c for c in cfgs]
     j0 = len(ops)
@@ -52,7 +55,9 @@ def external_script(cfgs, fail=None):
             'genpatchcs:0:2', 'genmergecs:2:0',              # h6 h7
             'sortobj:0', 'sortobjcs:2', 'getptr:0:' + b'/a/2/b'.hex(), 'findptr:0:8', 'minify:' + b'[1 , 2 /* c */ ]'.hex(),   # h8
             'mal:616263', 'free:s0',
-            'astr:2:x6b:x76', 'deto:2:x6b', 'del:10']        # h9, h10
+            'astr:2:x6b:x76', 'deto:2:x6b', 'del:10',        # h9, h10
+            'parse:' + PATCH_C.encode().hex(),               # h11: copy / move / add / replace / test / remove with values that need several blocks
+            'applypatchcs:2:11']
     line = 'hist EXS %s %s' % (fail or '0', ';'.join(ops))
     return Case(line, {'tags': ['external', 'config:' + '>'.join(cfgs)] + (['failure'] if fail else []), 'phases': list(cfgs), 'first': j0})
 
@@ -72,6 +77,12 @@ def generate(ctx):
     for op in range(1, 9):
         for k in range(1, 7):
             cases.append(external_script(['11'], fail='@%d.%d' % (op, k)))
+    # JSON Patch / Merge Patch application under custom hooks with the k-th request of that call failing: whatever the utility does about the
+    # failure (the unchanged code may lose blocks there, see DESIGN 11.6), every block it DOES release goes to the user's function exactly once
+    for op, kmax in ((11, 14), (13, 14), (27, 40)):      # applypatch (generated patch), mergepatch, applypatchcs (hand-written patch with copy / move)
+        for k in range(1, kmax + 1):
+            c = external_script(['11'], fail='@%d.%d' % (op, k)); c.info['tags'] = c.info['tags'] + ['utils-failure']; c.info['utils_failure'] = True
+            cases.append(c)
     for c in coregen.print_failure_cases():      # the same under an explicit cJSON_InitHooks({m,f}) (the failing call moves by one)
         t = c.line.split(' '); j, k = t[2][1:].split('.')
         cases.append(Case('hist DEX @%d.%s hooks:11;%s' % (int(j) + 1, k, t[3]), {'tags': c.info['tags'] + ['failure'], 'phases': ['11']}))
@@ -95,6 +106,7 @@ def verdict(c, out, ctx):
     ops = [x for x in c.line.split(' ')[3].split(';') if x]
     segs = out.split(' ; ')
     if len(segs) < len(ops) + 1: return 'output ends early'
+    if c.info.get('utils_failure'): return None      # exactly-once release and no libc use are judged by health_problem above and the counters of the other cases; balance is not claimed here
     if ' X live=' in out and ' X live=0' not in out: return 'blocks remain allocated after deleting every root'
     marks = []      # (config that starts here, counters at that moment, live blocks before the switch)
     for i, o in enumerate(ops):
